@@ -402,6 +402,9 @@ func groundObligation(o *Obligation, rounds int) *Obligation {
 	goal := skolemizeQuant(o.Goal, true)
 	var assumes []*Term
 	assumes = append(assumes, o.Assumes...)
+	if os.Getenv("GOVC_NOSIMP") == "" {
+		assumes, goal = simplifyUnderFacts(assumes, goal)
+	}
 	// (A ==> B) with a quantified A: prove B assuming A
 	for goal.kind == tApp && goal.Op == "=>" && g.hasQ(goal.Args[0]) {
 		assumes = append(assumes, goal.Args[0])
@@ -468,4 +471,205 @@ func groundMaxGen() int {
 		}
 	}
 	return 1
+}
+
+// ---------------------------------------------------------------------------------------------------------------
+// Simplification under unit facts. Matching is syntactic, so before instantiating, the VC is rewritten with what
+// the path condition states outright: atoms asserted true or false, and ground equalities (oriented towards the
+// smaller term). The unit facts themselves stay in the VC, so the rewritten VC is equivalent to the original one.
+
+func rebuildTerm(t *Term, args []*Term) *Term {
+	switch t.kind {
+	case tApp:
+		switch t.Op {
+		case "and":
+			return And(args...)
+		case "or":
+			return Or(args...)
+		case "not":
+			return Not(args[0])
+		case "=>":
+			return Implies(args[0], args[1])
+		case "ite":
+			return Ite(args[0], args[1], args[2])
+		case "=":
+			if len(args) == 2 {
+				if args[0].Sort == SBool {
+					switch {
+					case args[0].IsTrue():
+						return args[1]
+					case args[1].IsTrue():
+						return args[0]
+					case args[0].IsFalse():
+						return Not(args[1])
+					case args[1].IsFalse():
+						return Not(args[0])
+					}
+				}
+				return Eq(args[0], args[1])
+			}
+		case "select":
+			return Select(args[0], args[1])
+		case "store":
+			return Store(args[0], args[1], args[2])
+		}
+	case tSel:
+		if t.Lit != nil && args[0].Sort == t.Args[0].Sort {
+			return SelField(args[0], int(t.Lit.Int64()))
+		}
+	case tCon:
+		return Con(t.Sort, args...)
+	}
+	n := *t
+	n.Args = args
+	n.id = 0
+	return intern(&n)
+}
+
+func rewriteWith(t *Term, sub map[*Term]*Term, memo map[*Term]*Term) *Term {
+	if r, ok := memo[t]; ok {
+		return r
+	}
+	if r, ok := sub[t]; ok {
+		rr := rewriteWith(r, sub, memo)
+		memo[t] = rr
+		return rr
+	}
+	if len(t.Args) == 0 || t.kind == tQuant && false {
+		memo[t] = t
+		return t
+	}
+	changed := false
+	args := make([]*Term, len(t.Args))
+	for i, a := range t.Args {
+		args[i] = rewriteWith(a, sub, memo)
+		if args[i] != a {
+			changed = true
+		}
+	}
+	r := t
+	if changed {
+		r = rebuildTerm(t, args)
+		if r2, ok := sub[r]; ok && r2 != r {
+			r = rewriteWith(r2, sub, memo)
+		}
+	}
+	memo[t] = r
+	return r
+}
+
+func occursIn(needle, t *Term, memo map[*Term]bool) bool {
+	if t == needle {
+		return true
+	}
+	if v, ok := memo[t]; ok {
+		return v
+	}
+	r := false
+	for _, a := range t.Args {
+		if occursIn(needle, a, memo) {
+			r = true
+			break
+		}
+	}
+	memo[t] = r
+	return r
+}
+
+// simplifyUnderFacts rewrites the assumptions and the goal with the unit facts among the assumptions.
+func simplifyUnderFacts(assumes []*Term, goal *Term) ([]*Term, *Term) {
+	for round := 0; round < 3; round++ {
+		sub := map[*Term]*Term{}
+		origin := map[*Term]bool{}
+		qm := map[*Term]bool{}
+		var flat []*Term
+		var flatten func(t *Term)
+		flatten = func(t *Term) {
+			if t.kind == tApp && t.Op == "and" {
+				for _, a := range t.Args {
+					flatten(a)
+				}
+				return
+			}
+			flat = append(flat, t)
+		}
+		for _, a := range assumes {
+			flatten(a)
+		}
+		for _, f := range flat {
+			if hasQuant(f, qm) {
+				continue
+			}
+			switch {
+			case f.kind == tApp && f.Op == "=" && len(f.Args) == 2:
+				a, b := f.Args[0], f.Args[1]
+				if a.Sort == SBool {
+					continue
+				}
+				// orient: replace the larger term by the smaller one; literals and symbols win
+				sa, sb := termSize(a), termSize(b)
+				if sa < sb || sa == sb && a.id < b.id {
+					a, b = b, a
+				}
+				// now a is the larger: a -> b
+				if a.kind == tIntLit || a.kind == tBoolLit || a.kind == tRealLit {
+					continue
+				}
+				if len(a.Args) == 0 && len(b.Args) != 0 {
+					continue
+				}
+				if occursIn(a, b, map[*Term]bool{}) {
+					continue
+				}
+				if _, ok := sub[a]; !ok {
+					sub[a] = b
+					origin[f] = true
+				}
+			case f.kind == tApp && f.Op == "not" && f.Args[0].Sort == SBool && f.Args[0].kind != tBoolLit:
+				x := f.Args[0]
+				if x.kind == tApp && (x.Op == "and" || x.Op == "or") {
+					continue
+				}
+				if _, ok := sub[x]; !ok {
+					sub[x] = False
+					origin[f] = true
+				}
+			case f.Sort == SBool && (f.kind == tSym || f.kind == tUF || f.kind == tSel || f.kind == tApp && (f.Op == "select" || f.Op == "<" || f.Op == "<=" || f.Op == ">" || f.Op == ">=")):
+				if _, ok := sub[f]; !ok {
+					sub[f] = True
+					origin[f] = true
+				}
+			}
+		}
+		if len(sub) == 0 {
+			break
+		}
+		// break cycles: a -> b and b -> a cannot both be present because of the orientation; chains are followed
+		memo := map[*Term]*Term{}
+		changed := false
+		var out []*Term
+		for _, f := range flat {
+			// keep the defining fact itself
+			if origin[f] {
+				out = append(out, f)
+				continue
+			}
+			r := rewriteWith(f, sub, memo)
+			if r != f {
+				changed = true
+			}
+			if !r.IsTrue() {
+				out = append(out, r)
+			}
+		}
+		g := rewriteWith(goal, sub, memo)
+		if g != goal {
+			changed = true
+		}
+		assumes, goal = out, g
+		if !changed {
+			break
+		}
+	}
+	return assumes, goal
 }
